@@ -24,4 +24,6 @@ func init() {
 	mut("C01", "close-on-unknown-length", "proxy.go", "\tif req.Close || res.Close || p.Closing() {", "\tif req.Close || res.Close || res.ContentLength < 0 || p.Closing() {", "C01.R3", "marked close only")
 	mut("C01", "errclose-without-close-request", "proxy.go", "\tvar closing error\n", "\tvar closing error\n\tif res.StatusCode >= 500 {\n\t\tclosing = errClose\n\t}\n", "C01.R3", "ends the connection only")
 	mut("C01", "settimeout-drops-argument", "proxy.go", "\tp.timeout = timeout\n", "\t_ = timeout\n", "C01.R5", "SetTimeout stores its argument")
+	mut("C01", "deadline-once-per-connection", "proxy.go", "\tfor {\n\t\tdeadline := time.Now().Add(p.timeout)\n\t\tconn.SetDeadline(deadline)\n", "\tdeadline := time.Now().Add(p.timeout)\n\tfor {\n\t\tconn.SetDeadline(deadline)\n", "C01.R5", "is computed for each exchange")
+	twin("C01", "deadline-inline", "proxy.go", "\t\tdeadline := time.Now().Add(p.timeout)\n\t\tconn.SetDeadline(deadline)\n", "\t\tconn.SetDeadline(time.Now().Add(p.timeout))\n")
 }
